@@ -193,7 +193,7 @@ pub fn check(mem: &Mem18, c: &Cfg) -> Verdict {
         let pid = libc::fork();
         assert!(pid >= 0);
         if pid == 0 {
-            libc::alarm(120);
+            libc::alarm(300);
             let r = std::panic::catch_unwind(std::panic::AssertUnwindSafe(|| child(mem, c)));
             libc::_exit(if r.is_ok() { 0 } else { 97 });
         }
@@ -203,7 +203,7 @@ pub fn check(mem: &Mem18, c: &Cfg) -> Verdict {
         if libc::WIFSIGNALED(status) {
             let sig = libc::WTERMSIG(status);
             if sig == libc::SIGALRM {
-                return Verdict::Inconclusive("C18 child hit the 120 s watchdog".into());
+                return Verdict::Inconclusive("C18 child hit the 1180 s watchdog".into());
             }
             return Verdict::fail(format!("signal-{sig}"), format!("child died with signal {sig}; configuration {c:?}"));
         }
